@@ -50,8 +50,8 @@ Resolve(item, prog, env, count, log) ==
              LET r == RunBlock(env.progs[item.n], env.progs[item.n][1], env, count) IN
              IF r.k = "hard" THEN (IF r.v.depth THEN [r EXCEPT !.log = log \o r.log] ELSE OkR(ErrV(r.v.c), log \o r.log))
              ELSE OkR(r.v, log \o r.log)
-        ELSE OkR(ErrV("absent"), log))
-    ELSE IF item.t = "bound" THEN Hard("other", log)
+        ELSE OkR(ErrV("absent"), Append(log, "#unres")))              \* the interpreter notes that a name did not resolve
+    ELSE IF item.t = "bound" THEN OkR(ErrV("absent"), log)          \* a method selected but not called reads as a missing attribute
     ELSE OkR(item, log)
 
 (* the API-level outcome of a finished block: the top of the stack, resolved *)
@@ -76,6 +76,8 @@ BinF(op, a, b) == CASE op = "ADD" -> Arith("+", a, b) [] op = "SUB" -> Arith("-"
 BinOps == {"ADD", "SUB", "MUL", "DIV", "MOD", "LT", "LE", "EQ", "NE", "GE", "GT", "IN", "INDEX"}
 FuncNames(env) == (DOMAIN env.funcs) \cup BuiltinNames
 VMacroNames == {"has", "coalesce", "all", "exists", "exists_one", "filter", "map", "reduce"}
+(* the compile-time bindings lack has and coalesce *)
+MacrosOf(env) == IF "nomacros" \in DOMAIN env THEN VMacroNames \ env.nomacros ELSE VMacroNames
 
 (* argument blocks evaluated in order; the first failure is the call's result *)
 ResolveArgs(args, i, prog, env, count, log, acc) ==
@@ -217,7 +219,12 @@ Step1(prog, code, pc, stack, env, count, log) ==
            LET p == PopArgs(stack, 2 * i.n, prog, env, count, log, <<>>) IN
            IF p.k = "hard" THEN p
            ELSE \* popped: key_n, value_n, key_(n-1), ... ; the first occurrence of a key while popping is the last entry in the source
-                IF \E k \in 1..i.n : ~IsUnk(p.args[2 * k - 1]) /\ p.args[2 * k - 1].t # "str" THEN Hard("other", p.log)
+                IF \E k \in 1..i.n : ~IsUnk(p.args[2 * k - 1]) /\ p.args[2 * k - 1].t # "str"
+                THEN \* the first offending key in source order (popped last) decides: its own failure, or "not a string"
+                     LET kk == CHOOSE k \in 1..i.n : (~IsUnk(p.args[2 * k - 1]) /\ p.args[2 * k - 1].t # "str")
+                                                     /\ \A j \in (k + 1)..i.n : IsUnk(p.args[2 * j - 1]) \/ p.args[2 * j - 1].t = "str"
+                     IN Nx(pc + 1, Append(p.stack, IF \E j \in 1..i.n : IsUnk(p.args[2 * j - 1]) THEN Unk
+                                                   ELSE IF IsErrV(p.args[2 * kk - 1]) THEN p.args[2 * kk - 1] ELSE ErrV("other")), p.log)
                 ELSE LET bad == \E k \in 1..(2 * i.n) : IsErrV(p.args[k]) \/ IsUnk(p.args[k])
                          pairsSrc == [k \in 1..i.n |-> <<p.args[2 * (i.n + 1 - k) - 1], p.args[2 * (i.n + 1 - k)]>>]
                      IN Nx(pc + 1, Append(p.stack, IF bad THEN Unk ELSE OfOutcome(MkMap(pairsSrc))), p.log)
@@ -228,7 +235,7 @@ Step1(prog, code, pc, stack, env, count, log) ==
                       IF r.k = "hard" THEN r
                       ELSE IF name.t # "ident" THEN Nx(pc + 1, Append(Pop2(stack), ErrV("other")), r.log)
                       ELSE LET obj == r.v
-                               callable == name.n \in FuncNames(env) \cup VMacroNames
+                               callable == name.n \in FuncNames(env) \cup MacrosOf(env)
                                res == IF IsUnk(obj) THEN Unk
                                       ELSE IF IsErrV(obj) THEN obj
                                       ELSE IF obj.t = "map" /\ "fc" \in DOMAIN name /\ MapHas(obj.kv, name.fc) THEN MapGet(obj.kv, name.fc)
@@ -248,7 +255,7 @@ Step1(prog, code, pc, stack, env, count, log) ==
                            IF ra.k = "hard" THEN ra
                            ELSE IF ra.k = "fail" THEN Nx(pc + 1, Append(p.stack, ra.v), ra.log)
                            ELSE LET c == CallFunction(fname, callee.t = "bound", recv, ra.vals, env, ra.log) IN Nx(pc + 1, Append(p.stack, c.v), c.log)
-                      ELSE IF fname \in VMacroNames THEN
+                      ELSE IF fname \in MacrosOf(env) THEN
                            LET c == CallMacro(fname, recv, p.args, prog, env, count, p.log) IN
                            IF c.k = "hard" THEN c
                            ELSE IF IsErrV(c.v) /\ "d" \in DOMAIN c.v THEN [k |-> "hard", v |-> [c |-> "other", depth |-> TRUE], log |-> c.log]   \* call_macro: depth aborts
@@ -258,12 +265,14 @@ Step1(prog, code, pc, stack, env, count, log) ==
                            IF ra.k = "hard" THEN ra
                            ELSE IF ra.k = "fail" THEN Nx(pc + 1, Append(p.stack, ra.v), ra.log)
                            ELSE LET c == CallFunction(fname, FALSE, VNull, ra.vals, env, ra.log) IN Nx(pc + 1, Append(p.stack, c.v), c.log)
-                      ELSE Nx(pc + 1, Append(p.stack, ErrV("other")), p.log)
+                      ELSE Nx(pc + 1, Append(p.stack, ErrV("other")), Append(p.log, "#unres"))     \* not callable: noted too
       ELSE IF i.op = "FMT" THEN
            LET p == PopArgs(stack, i.n, prog, env, count, log, <<>>) IN
            IF p.k = "hard" THEN p
            ELSE IF \E k \in 1..i.n : IsUnk(p.args[k]) THEN Nx(pc + 1, Append(p.stack, Unk), p.log)
-           ELSE IF \E k \in 1..i.n : p.args[k].t # "str" THEN Hard("other", p.log)
+           ELSE IF \E k \in 1..i.n : p.args[k].t \notin {"str", "err"} THEN Hard("other", p.log)
+           ELSE IF \E k \in 1..i.n : IsErrV(p.args[k])                       \* the first failed segment in source order (popped last) is the result
+                THEN Nx(pc + 1, Append(p.stack, p.args[CHOOSE k \in 1..i.n : IsErrV(p.args[k]) /\ \A j \in (k + 1)..i.n : ~IsErrV(p.args[j])]), p.log)
            ELSE LET RECURSIVE Cat(_)
                     Cat(k) == IF k = 0 THEN <<>> ELSE p.args[k].s \o Cat(k - 1)
                 IN Nx(pc + 1, Append(p.stack, VStr(Cat(i.n))), p.log)
@@ -276,8 +285,12 @@ Exec(prog, code, pc, stack, env, count, log) ==
          IF s.k = "next" THEN Exec(prog, code, s.pc, s.stack, env, count, s.log) ELSE s
 
 (* API-level observation of executing a program: an observed-outcome record and the call log *)
+RECURSIVE CallsOnly(_)
+CallsOnly(log) == IF log = <<>> THEN <<>> ELSE IF Head(log) = "#unres" THEN CallsOnly(Tail(log)) ELSE <<Head(log)>> \o CallsOnly(Tail(log))
+SawUnresolved(log) == \E i \in 1..Len(log) : log[i] = "#unres"
 RunProgram(prog, env) ==
-    LET r == RunBlock(prog, prog[1], env, 0) IN
+    LET r0 == RunBlock(prog, prog[1], env, 0)
+        r == [r0 EXCEPT !.log = CallsOnly(r0.log)] IN
     IF r.k = "hard" THEN [out |-> [o |-> "err", c |-> r.v.c], log |-> r.log, unk |-> FALSE]
     ELSE IF IsUnk(r.v) THEN [out |-> [o |-> "unknown"], log |-> r.log, unk |-> TRUE]
     ELSE [out |-> [o |-> "ok", v |-> r.v], log |-> r.log, unk |-> FALSE]
